@@ -42,8 +42,9 @@ Mark(ep, d) == [ep EXCEPT !.dev = @ \cup {d}]
 FPreface == [t |-> "PREFACE"]
 FSettings(pairs) == [t |-> "SET", ack |-> FALSE, s |-> pairs]
 FSettingsAck == [t |-> "SET", ack |-> TRUE, s |-> <<>>]
-FHeaders(sid, es, h, pr, ets) == [t |-> "HEADERS", sid |-> sid, es |-> es, h |-> h, pr |-> pr, blk |-> "ok", ets |-> ets]   \* h: tokens; ets: sender's HPACK table size
-FPush(sid, pid, h, ets) == [t |-> "PP", sid |-> sid, pid |-> pid, h |-> h, blk |-> "ok", ets |-> ets]
+\* h: tokens; tsu: the HPACK dynamic-table size updates at the head of the block
+FHeaders(sid, es, h, pr, tsu) == [t |-> "HEADERS", sid |-> sid, es |-> es, h |-> h, pr |-> pr, blk |-> "ok", tsu |-> tsu]
+FPush(sid, pid, h, tsu) == [t |-> "PP", sid |-> sid, pid |-> pid, h |-> h, blk |-> "ok", tsu |-> tsu]
 FData(sid, es, n, tag, pad) == [t |-> "DATA", sid |-> sid, es |-> es, n |-> n, tag |-> tag, pad |-> pad]
 FRst(sid, code) == [t |-> "RST", sid |-> sid, code |-> code]
 FPing(ack, tag) == [t |-> "PING", ack |-> ack, tag |-> tag]
@@ -113,6 +114,15 @@ Collapse(p) ==
        IN <<<<id, lastv>>>> \o Collapse(SelectSeq(Tail(p), LAMBDA q : q[1] # id))
 \* SETTINGS_MAX_CONCURRENT_STREAMS with its "unset = unlimited" default; big wire values are negative here
 WithinConcurrency(nOpen, S) == ~SHas(S, 3) \/ SCur(S, 3) < 0 \/ nOpen + 1 <= SCur(S, 3)
+
+\* ---------------------------------------------------------------- HPACK dynamic-table size bookkeeping (hpack.Encoder)
+\* size: the table size in use; rz: "resized" flag of the LAST assignment (an assignment of the same value clears it);
+\* ch: sizes assigned and not yet signalled.  A header block starts with all of ch if rz is set, and clears both;
+\* if rz is not set the pending sizes stay unsignalled (until some later resize).
+EncInit == [size |-> 4096, rz |-> FALSE, ch |-> <<>>]
+EncSet(e, v) == [size |-> v, rz |-> v # e.size, ch |-> IF v # e.size THEN Append(e.ch, v) ELSE e.ch]
+EncTsu(e) == IF e.rz THEN e.ch ELSE <<>>
+EncAfter(e) == IF e.rz THEN [e EXCEPT !.rz = FALSE, !.ch = <<>>] ELSE e
 
 \* ---------------------------------------------------------------- inbound window manager (h2.windows.WindowManager)
 WM(max) == [max |-> max, cur |-> max, bp |-> 0]
@@ -191,13 +201,20 @@ InitEp(role, cfg, maxClosed) ==
    streams |-> <<>>, sord |-> <<>>, closed |-> <<>>, hiIn |-> 0, hiOut |-> 0,
    ls |-> InitSettings(role = "c", TRUE), rs |-> InitSettings(role # "c", FALSE),
    ow |-> 65535, iw |-> WM(65535), mof |-> 16384, mif |-> 16384, hdrCap |-> 65536,
-   encSize |-> 4096,            \* HPACK encoder table size (follows the peer's HEADER_TABLE_SIZE)
+   enc |-> EncInit,             \* HPACK encoder table-size state (follows the peer's HEADER_TABLE_SIZE)
+   decSize |-> 4096,            \* table size the HPACK decoder currently uses (follows the size updates it decoded)
    decMax |-> 4096,             \* largest table size the HPACK decoder accepts (own acknowledged HEADER_TABLE_SIZE)
    lsF |-> <<>>,                \* SETTINGS frames sent and not yet acknowledged, as the PEER counts them (one per frame)
-   peerEnc |-> 4096,            \* table size a conforming peer's encoder uses: changes when the peer ACKs the frame carrying it
+   lsH |-> <<>>,                \* per SETTINGS frame sent and not yet acknowledged: <<v>> if it carries HEADER_TABLE_SIZE = v, else <<>>
+   penc |-> EncInit,            \* the harness peer's HPACK encoder (single-endpoint mode): it starts using a HEADER_TABLE_SIZE
+                                \* when it acknowledges the SETTINGS frame that carried it
    needPre |-> role = "s",      \* a server's frame buffer first expects the client preface
+   pend |-> <<>>,               \* received frames still in the input buffer: those behind the frame that made an earlier
+                                \* receive_data() raise (they are handled first by the next call)
    out |-> <<>>,                \* frames appended to the output buffer and not yet taken by data_to_send
    hd |-> FALSE,                \* the HPACK encoder context is no longer predictable (a failed send consumed it)
+   sat |-> FALSE,               \* a number of the implementation left the 32-bit range this model computes in
+   dl |-> FALSE,                \* the HPACK decoder gave up in the middle of a block (its table is no longer predictable)
    dev |-> {}]
 
 Has(ep, sid) == sid \in DOMAIN ep.streams
@@ -267,7 +284,7 @@ Initiate(ep) ==
   IF ~c1.ok THEN CR(c1.ep, PE)
   ELSE LET pairs == [i \in 1..Len(ep.ls.ord) |-> <<ep.ls.ord[i], SCur(ep.ls, ep.ls.ord[i])>>]
        \* the initial frame changes nothing (its values are in force already): it counts as an empty change set
-       IN CR(Emit([c1.ep EXCEPT !.lsF = Append(@, <<>>)],
+       IN CR(Emit([c1.ep EXCEPT !.lsF = Append(@, <<>>), !.lsH = Append(@, IF SHas(ep.ls, 1) THEN <<SCur(ep.ls, 1)>> ELSE <<>>)],
                   (IF ep.role = "c" THEN <<FPreface>> ELSE <<>>) \o <<FSettings(pairs)>>), OK)
 
 StreamSendHeaders(ep, c) ==
@@ -279,17 +296,24 @@ StreamSendHeaders(ep, c) ==
      IF p.oc # "ok" THEN CR(PutR(ep, sid, p), ExcOf(p.oc))
      ELSE LET pipe == OutPipeline(c.h, KindOfSend(p.ev), ep.cfg.no, ep.cfg.vo)
               e1 == Put(ep, sid, p.st)
+          \* (the encoder writes its pending table-size updates before it looks at the first field: a block that is
+          \* then refused takes them with it)
           IN IF ~pipe.ok
-             THEN CR(Mark(IF pipe.clean THEN e1 ELSE Dirty(e1), "failed_send_partial_state"), PE)
+             THEN CR(Mark(IF pipe.clean /\ ~ep.enc.rz THEN e1 ELSE Dirty(e1), "failed_send_partial_state"), PE)
              ELSE LET s2 == IF c.es THEN Process(p.st, "SEND_END_STREAM").st ELSE p.st IN
                   IF s2.ts /\ ~c.es THEN CR(Mark(Dirty(Put(ep, sid, s2)), "failed_send_partial_state"), PE)
                   ELSE LET s3 == [s2 EXCEPT !.auth = IF s2.cl = "T" /\ @ = "None" THEN AuthorityOf(c.h) ELSE @,
                                             !.meth = MethodOf(c.h)]
-                           e3 == Put(ep, sid, s3)
-                       IN IF ~PrioPresent(c.pr) THEN CR(Emit(e3, <<FHeaders(sid, c.es, pipe.h, <<>>, ep.encSize)>>), OK)
+                           \* a reserved (pushed) stream becomes open without any look at the peer's MAX_CONCURRENT_STREAMS
+                           bypass == s.st = "RESERVED_LOCAL" /\ StreamOpen(s3) /\ ~WithinConcurrency(CountOpen(ep, MyParity(ep)), ep.rs)
+                           e3 == IF bypass THEN Mark(Put(ep, sid, s3), "push_bypasses_stream_limit") ELSE Put(ep, sid, s3)
+                           \* more than one pending table size: the encoder signals all of them, not the smallest and the last
+                           e4 == [(IF Len(EncTsu(ep.enc)) > 1 THEN Mark(e3, "hpack_size_update_intermediate") ELSE e3)
+                                     EXCEPT !.enc = EncAfter(@)]
+                       IN IF ~PrioPresent(c.pr) THEN CR(Emit(e4, <<FHeaders(sid, c.es, pipe.h, <<>>, EncTsu(ep.enc))>>), OK)
                           ELSE IF ep.role = "s" THEN CR(Mark(Dirty(e3), "failed_send_partial_state"), Exc("RFC1122Error", -1))
                           ELSE IF PrioBad(sid, c.pr) THEN CR(Mark(Dirty(e3), "failed_send_partial_state"), PE)
-                          ELSE CR(Emit(e3, <<FHeaders(sid, c.es, pipe.h, PrioFields(c.pr), ep.encSize)>>), OK)
+                          ELSE CR(Emit(e4, <<FHeaders(sid, c.es, pipe.h, PrioFields(c.pr), EncTsu(ep.enc))>>), OK)
 
 SendHeaders(ep, c) ==
   LET isNew == ~Has(ep, c.sid)
@@ -361,9 +385,11 @@ PushStream(ep, c) ==
        IF p.oc # "ok" THEN CR(Mark(PutR(b.ep, c.sid, p), "failed_send_partial_state"), ExcOf(p.oc))
        ELSE LET pipe == OutPipeline(c.h, "push", ep.cfg.no, ep.cfg.vo)
                 e2 == Put(b.ep, c.sid, p.st)
-            IN IF ~pipe.ok THEN CR(Mark(IF pipe.clean THEN e2 ELSE Dirty(e2), "failed_send_partial_state"), PE)
+            IN IF ~pipe.ok THEN CR(Mark(IF pipe.clean /\ ~ep.enc.rz THEN e2 ELSE Dirty(e2), "failed_send_partial_state"), PE)
                ELSE LET q == Process(e2.streams[c.pid], "SEND_PUSH_PROMISE")
-                    IN CR(Emit(Put(e2, c.pid, q.st), <<FPush(c.sid, c.pid, pipe.h, ep.encSize)>>), OK)
+                        e5 == IF Len(EncTsu(ep.enc)) > 1 THEN Mark(Put(e2, c.pid, q.st), "hpack_size_update_intermediate")
+                              ELSE Put(e2, c.pid, q.st)
+                    IN CR(Emit([e5 EXCEPT !.enc = EncAfter(@)], <<FPush(c.sid, c.pid, pipe.h, EncTsu(ep.enc))>>), OK)
 
 Ping(ep, c) ==
   IF c.n # 8 THEN CR(ep, Exc("ValueError", -1))
@@ -392,7 +418,9 @@ UpdateSettings(ep, c) ==
                Exc("InvalidSettingsValueError", u.code))
        ELSE \* the frame serialiser (hyperframe) writes only the low 8 bits of a setting identifier
             LET wire == [i \in 1..Len(c.s) |-> <<c.s[i][1] % 256, c.s[i][2]>>]
-                e1 == [c1.ep EXCEPT !.ls = u.S, !.lsF = Append(@, c.s)]
+                hts == SelectSeq(wire, LAMBDA q : q[1] = 1)
+                e1 == [c1.ep EXCEPT !.ls = u.S, !.lsF = Append(@, c.s),
+                                    !.lsH = Append(@, IF hts = <<>> THEN <<>> ELSE <<hts[Len(hts)][2]>>)]
             IN CR(Emit(IF wire # c.s THEN Mark(e1, "setting_id_truncated") ELSE e1, <<FSettings(wire)>>), OK)
 
 AdvertiseAltSvc(ep, c) ==
@@ -459,11 +487,21 @@ RecvPriorityPart(ep, sid, pr) ==       \* _receive_priority_frame on a PRIORITY 
   ELSE RR(c1.ep, OK, <<EvPrio(sid, pr[1], pr[2], pr[3])>>)
 
 UGt(a, b) == IF (a < 0) = (b < 0) THEN a > b ELSE a < 0       \* unsigned comparison of 32-bit wire values
-DecodeFailure(ep, f) ==      \* _decode_headers: "ok" or the exception
-  IF f.blk = "bad" THEN PE ELSE IF f.blk = "big" THEN Exc("DenialOfServiceError", 11)
-  ELSE IF ep.hdrCap >= 0 /\ ListSize(f.h) > ep.hdrCap THEN Exc("DenialOfServiceError", 11)   \* decoder.max_header_list_size
-  ELSE IF UGt(f.ets, ep.decMax) THEN PE       \* the peer's encoder uses a larger table than the decoder allows
-  ELSE OK
+\* _decode_headers (hpack.Decoder.decode): x = "ok" or the exception, size = the table size the decoder ends up with.
+\* In the decoder's order: every table-size update at the head of the block must be within the acknowledged
+\* HEADER_TABLE_SIZE; then the fields, whose running size is bounded by max_header_list_size; at the end the table
+\* size in use must (still) be within the acknowledged HEADER_TABLE_SIZE.
+BigField == 70037          \* RFC 7541 size of the field the harness adds to make a block "big"
+DecodeHP(ep, f) ==
+  LET tsu == f.tsu
+      over == \E i \in 1..Len(tsu) : UGt(tsu[i], ep.decMax)
+      size == IF tsu = <<>> THEN ep.decSize ELSE tsu[Len(tsu)]
+      listSize == ListSize(f.h) + (IF f.blk = "big" THEN BigField ELSE 0)
+  IN IF f.blk = "bad" THEN [x |-> PE, size |-> ep.decSize]
+     ELSE IF over THEN [x |-> PE, size |-> ep.decSize]
+     ELSE IF ep.hdrCap >= 0 /\ listSize > ep.hdrCap THEN [x |-> Exc("DenialOfServiceError", 11), size |-> size]
+     ELSE IF UGt(size, ep.decMax) THEN [x |-> PE, size |-> size]
+     ELSE [x |-> OK, size |-> size]
 
 \* stream.receive_headers
 StreamRecvHeaders(ep, f) ==
@@ -481,7 +519,9 @@ StreamRecvHeaders(ep, f) ==
               s3 == IF head THEN [s2 EXCEPT !.eclSet = TRUE, !.ecl = 0]
                     ELSE IF HasCL(f.h) /\ CLTok(f.h).ci THEN [s2 EXCEPT !.eclSet = TRUE, !.ecl = CLTok(f.h).civ]
                     ELSE s2
-              e3 == Put(ep, sid, s3)
+              \* the response on a reserved (pushed) stream opens it without any look at the own MAX_CONCURRENT_STREAMS
+              bypass == s.st = "RESERVED_REMOTE" /\ StreamOpen(s3) /\ ~WithinConcurrency(CountOpen(ep, 1 - MyParity(ep)), ep.ls)
+              e3 == IF bypass THEN Mark(Put(ep, sid, s3), "push_bypasses_stream_limit") ELSE Put(ep, sid, s3)
           IN IF clBad THEN RR(Put(ep, sid, s2), PE, <<>>)
              ELSE IF p1.ev = "Trl" /\ ~f.es THEN RR(e3, PE, <<>>)
              ELSE LET pipe == InPipeline(f.h, KindOfRecv(p1.ev), ep.cfg.ni, ep.cfg.vi, ep.cfg.enc) IN
@@ -493,9 +533,9 @@ RecvHeaders(ep, f) ==
   LET isNew == ~Has(ep, f.sid)
       e0 == IF isNew THEN Cleanup(ep) ELSE ep
   IN IF isNew /\ ~WithinConcurrency(CountOpen(e0, 1 - MyParity(ep)), ep.ls) THEN RR(e0, Exc("TooManyStreamsError", 1), <<>>)
-     ELSE LET d == DecodeFailure(e0, f) IN
-     IF d.c # "ok" THEN RR(IF f.blk = "bad" THEN Mark(e0, "hpack_error_code") ELSE e0, d, <<>>)
-     ELSE LET c1 == ConnStep(e0, "RECV_HEADERS") IN
+     ELSE LET d == DecodeHP(e0, f) IN
+     IF d.x.c # "ok" THEN RR([(IF d.x.c = "ProtocolError" THEN Mark(e0, "hpack_error_code") ELSE e0) EXCEPT !.dl = TRUE], d.x, <<>>)
+     ELSE LET c1 == ConnStep([e0 EXCEPT !.decSize = d.size], "RECV_HEADERS") IN
      IF ~c1.ok THEN RR(c1.ep, PE, <<>>)
      ELSE LET g == GetOrCreate(c1.ep, f.sid, 1 - MyParity(ep)) IN
      IF ~g.ok THEN RR(g.ep, [g.x EXCEPT !.c = IF @ = "StreamIDTooLowError" THEN "TooLow" ELSE @], <<>>)
@@ -516,7 +556,7 @@ RecvData(ep, f) ==
       c1 == ConnStep(ep, "RECV_DATA")
   IN IF ~c1.ok THEN RR(c1.ep, PE, <<>>)
      ELSE LET e1 == [c1.ep EXCEPT !.iw = WMConsume(@, fcl)] IN
-     IF e1.iw.cur < 0 THEN RR(e1, FCE, <<>>)
+     IF fcl > 0 /\ e1.iw.cur < 0 THEN RR(e1, FCE, <<>>)          \* an empty frame consumes nothing: never a flow-control error
      ELSE LET lk == Lookup(e1, f.sid) IN
      IF lk.c = "NoSuchStreamError" THEN RR(e1, NSE, <<>>)
      ELSE IF lk.c = "StreamClosedError" THEN DataOnClosed(e1, f.sid, fcl, <<>>)
@@ -527,7 +567,7 @@ RecvData(ep, f) ==
                   THEN DataOnClosed(Put(e1, f.sid, p.st), f.sid, fcl,
                                     IF p.ev = "ResetLocal" THEN <<EvReset(f.sid, 5, FALSE)>> ELSE <<>>)
              ELSE LET s1 == [p.st EXCEPT !.iw = WMConsume(@, fcl)] IN
-                  IF s1.iw.cur < 0 THEN RR(Put(e1, f.sid, s1), FCE, <<>>)
+                  IF fcl > 0 /\ s1.iw.cur < 0 THEN RR(Put(e1, f.sid, s1), FCE, <<>>)
                   ELSE LET s2 == [s1 EXCEPT !.acl = @ + f.n]
                            badLen == s2.eclSet /\ (s2.ecl < s2.acl \/ (f.es /\ s2.ecl # s2.acl))
                        IN IF badLen THEN RR(Put(e1, f.sid, s2), Exc("InvalidBodyLengthError", 1), <<>>)
@@ -550,9 +590,12 @@ ApplyInDelta(ep, sids, delta) ==
   ELSE LET sid == sids[1]
            w == ep.streams[sid].iw
        IN IF delta > 0 /\ Overflows(w.cur, delta) THEN [ep |-> ep, ok |-> FALSE]
-          ELSE LET newMax == w.max + delta
+          \* (the code's max_window_size is unbounded; a value above 2^31-1 cannot be written here: the endpoint is
+          \* flagged `sat` and its recorded executions are validated only up to that point)
+          ELSE LET over == delta > 0 /\ Overflows(w.max, delta)
+                   newMax == IF over THEN MAXW ELSE w.max + delta
                    w1 == WMOpen(w, delta)
-               IN ApplyInDelta([ep EXCEPT !.streams[sid].iw = [w1 EXCEPT !.max = newMax]], Tail(sids), delta)
+               IN ApplyInDelta([ep EXCEPT !.streams[sid].iw = [w1 EXCEPT !.max = newMax], !.sat = @ \/ over], Tail(sids), delta)
 
 RecvSettings(ep, f) ==
   LET c1 == ConnStep(ep, "RECV_SETTINGS") IN
@@ -563,10 +606,10 @@ RecvSettings(ep, f) ==
            frame == IF ep.lsF = <<>> THEN <<>> ELSE Collapse(ep.lsF[1])         \* the frame this ACK answers
            strict == [i \in 1..Len(frame) |-> <<frame[i][1], frame[i][2]>>]
            asBuilt == [i \in 1..Len(a.ch) |-> <<a.ch[i][1], a.ch[i][3]>>]
-           hts == SelectSeq(frame, LAMBDA q : q[1] % 256 = 1)       \* as the peer reads the identifiers (low 8 bits)
            ht == ChangeOf(a.ch, 1)
            e0 == [c1.ep EXCEPT !.ls = a.S, !.lsF = IF @ = <<>> THEN @ ELSE Tail(@),
-                               !.peerEnc = IF hts = <<>> THEN @ ELSE hts[1][2],
+                               !.lsH = IF @ = <<>> THEN @ ELSE Tail(@),
+                               !.penc = IF ep.lsH = <<>> \/ ep.lsH[1] = <<>> THEN @ ELSE EncSet(@, ep.lsH[1][1]),
                                !.decMax = IF ht = None THEN @ ELSE ht[1][3]]
            e1 == IF strict # asBuilt THEN Mark(e0, "ack_per_key") ELSE e0
            iws == ChangeOf(a.ch, 4)
@@ -591,8 +634,12 @@ RecvSettings(ep, f) ==
                              ELSE ApplyOutDelta(e1, e1.sord, iws[1][3] - iws[1][2][1])
                         mf == ChangeOf(a.ch, 5)
                         ht == ChangeOf(a.ch, 1)
-                        e2 == [d.ep EXCEPT !.mof = IF mf = None THEN @ ELSE mf[1][3],
-                                           !.encSize = IF ht = None THEN @ ELSE ht[1][3]]
+                        \* assigning the size already in use clears the encoder's "resized" flag: table sizes assigned
+                        \* before and not yet signalled are then never signalled (the peer's decoder is not told)
+                        dropped == ht # None /\ ht[1][3] = d.ep.enc.size /\ d.ep.enc.rz
+                        e2a == [d.ep EXCEPT !.mof = IF mf = None THEN @ ELSE mf[1][3],
+                                            !.enc = IF ht = None THEN @ ELSE EncSet(@, ht[1][3])]
+                        e2 == IF dropped THEN Mark(e2a, "hpack_size_update_dropped") ELSE e2a
                     IN IF ~d.ok THEN RR(d.ep, FCE, <<>>)
                        ELSE RR(Emit(e2, <<FSettingsAck>>), OK, <<ev>>)
 
@@ -653,9 +700,9 @@ RecvAltSvc(ep, f) ==
 
 RecvPushPromise(ep, f) ==
   IF SCur(ep.ls, 2) = 0 THEN RR(ep, PE, <<>>)
-  ELSE LET d == DecodeFailure(ep, f) IN
-  IF d.c # "ok" THEN RR(IF f.blk = "bad" THEN Mark(ep, "hpack_error_code") ELSE ep, d, <<>>)
-  ELSE LET c1 == ConnStep(ep, "RECV_PUSH_PROMISE") IN
+  ELSE LET d == DecodeHP(ep, f) IN
+  IF d.x.c # "ok" THEN RR([(IF d.x.c = "ProtocolError" THEN Mark(ep, "hpack_error_code") ELSE ep) EXCEPT !.dl = TRUE], d.x, <<>>)
+  ELSE LET c1 == ConnStep([ep EXCEPT !.decSize = d.size], "RECV_PUSH_PROMISE") IN
   IF ~c1.ok THEN RR(c1.ep, PE, <<>>)
   ELSE LET e1 == c1.ep
            refuse(e) == RR(Mark(Emit(e, <<FRst(f.pid, 7)>>), "refused_push_forgotten"), OK, <<>>)
@@ -679,7 +726,13 @@ RecvPushPromise(ep, f) ==
 BadStreamZero(f) ==
   \/ f.t \in {"HEADERS", "DATA", "RST", "PRIO", "PP", "CONT"} /\ f.sid = 0
   \/ f.t = "PP" /\ (f.pid = 0 \/ f.pid % 2 = 1)
-Dispatch(ep, f) ==
+Dispatch(ep0, f0) ==
+  \* a header block without tsu was built by the harness peer's encoder (single-endpoint mode): its pending table-size
+  \* updates went into this block, whatever happens to the frame afterwards
+  LET harness == f0.t \in {"HEADERS", "PP"} /\ "tsu" \notin DOMAIN f0
+      f == IF harness THEN f0 @@ [tsu |-> IF f0.blk = "bad" THEN <<>> ELSE EncTsu(ep0.penc)] ELSE f0
+      ep == IF harness /\ f0.blk # "bad" THEN [ep0 EXCEPT !.penc = EncAfter(@)] ELSE ep0
+  IN
   IF BadStreamZero(f) THEN RR(ep, PE, <<>>) ELSE
   CASE f.t = "HEADERS" -> RecvHeaders(ep, f)
     [] f.t = "DATA"    -> RecvData(ep, f)
@@ -719,17 +772,30 @@ Terminate(ep, code) ==
 Shift(ev, k) == IF "se" \in DOMAIN ev /\ "pu" \in DOMAIN ev
                 THEN [ev EXCEPT !.se = IF @ > 0 THEN @ + k ELSE @, !.pu = IF @ > 0 THEN @ + k ELSE @]
                 ELSE IF "se" \in DOMAIN ev THEN [ev EXCEPT !.se = IF @ > 0 THEN @ + k ELSE @] ELSE ev
-RECURSIVE ReceiveLoop(_, _, _)
-ReceiveLoop(ep, fs, evs) ==
-  IF fs = <<>> THEN [ep |-> ep, r |-> OK, ev |-> evs]
-  ELSE LET r == RecvFrame(ep, fs[1]) IN
-       IF r.x.c = "ok" THEN ReceiveLoop(r.ep, Tail(fs), evs \o [i \in 1..Len(r.ev) |-> Shift(r.ev[i], Len(evs))])
+\* FrameBuffer: a frame longer than the limit is a FRAME_SIZE_ERROR.  Only DATA frames can be that long here (every
+\* other frame of the scenarios is short; long header blocks travel in CONTINUATION frames).  The limit is copied
+\* from max_inbound_frame_size once per receive_data() call: a MAX_FRAME_SIZE change acknowledged by an earlier frame
+\* of the same call does not count yet (deviation frame_size_limit_snapshot where that changes the verdict).
+FrameLen(f) == IF f.t = "DATA" THEN f.n + (IF f.pad >= 0 THEN f.pad + 1 ELSE 0) ELSE 0
+RECURSIVE ReceiveLoop(_, _, _, _)
+ReceiveLoop(ep, fs, evs, lim) ==
+  IF fs = <<>> THEN [ep |-> [ep EXCEPT !.pend = <<>>], r |-> OK, ev |-> evs]
+  ELSE IF FrameLen(fs[1]) > lim
+  THEN \* refused by the frame parser: the frame is not even removed from the buffer
+       LET e1 == IF FrameLen(fs[1]) > ep.mif THEN ep ELSE Mark(ep, "frame_size_limit_snapshot")
+       IN [ep |-> [Terminate(e1, 6) EXCEPT !.pend = fs], r |-> Exc("FrameTooLargeError", 6), ev |-> <<>>]
+  ELSE LET e0 == IF FrameLen(fs[1]) > ep.mif THEN Mark(ep, "frame_size_limit_snapshot") ELSE ep
+           r == RecvFrame(e0, fs[1]) IN
+       IF r.x.c = "ok" THEN ReceiveLoop(r.ep, Tail(fs), evs \o [i \in 1..Len(r.ev) |-> Shift(r.ev[i], Len(evs))], lim)
        ELSE IF IsForeign(r.x) THEN [ep |-> Mark(r.ep, IF r.x.c = "foreign:IndexError" THEN "foreign_index_error_empty_name"
                                                       ELSE "foreign_unicode_error_header_encoding"), r |-> r.x, ev |-> <<>>]
-       ELSE [ep |-> Terminate(r.ep, r.x.e), r |-> [c |-> r.x.c, e |-> r.x.e], ev |-> <<>>]
+       \* the frames behind the failing one stay in the input buffer; a frame the frame parser refuses is not even
+       \* removed from it (every later call fails on it again)
+       ELSE [ep |-> [Terminate(r.ep, r.x.e) EXCEPT !.pend = IF BadStreamZero(fs[1]) THEN fs ELSE Tail(fs)],
+             r |-> [c |-> r.x.c, e |-> r.x.e], ev |-> <<>>]
 Receive(ep, fs) ==
-  IF ep.needPre /\ fs # <<>> THEN ReceiveLoop([ep EXCEPT !.needPre = FALSE], fs, <<>>)
-  ELSE ReceiveLoop(ep, fs, <<>>)
+  IF ep.needPre /\ fs # <<>> THEN ReceiveLoop([ep EXCEPT !.needPre = FALSE], ep.pend \o fs, <<>>, ep.mif)
+  ELSE ReceiveLoop(ep, ep.pend \o fs, <<>>, ep.mif)
 
 \* ---------------------------------------------------------------- queries (pure)
 LocalWindow(ep, sid) == LET lk == Lookup(ep, sid) IN IF lk.c = "ok" THEN Min(ep.ow, ep.streams[sid].ow) ELSE lk.c
@@ -751,5 +817,7 @@ ZSettings(S) == [i \in 1..Len(S.ord) |-> <<S.ord[i], IF S.ord[i] \in S.hn THEN T
 Z(ep) == [conn |-> ep.conn, hiIn |-> ep.hiIn, hiOut |-> ep.hiOut, ow |-> ep.ow, iw |-> <<ep.iw.cur, ep.iw.max, ep.iw.bp>>,
           streams |-> [i \in 1..Len(ep.sord) |-> ZStream(ep.sord[i], ep.streams[ep.sord[i]])],
           closed |-> [i \in 1..Len(ep.closed) |-> <<ep.closed[i].sid, ep.closed[i].by>>],
-          ls |-> ZSettings(ep.ls), rs |-> ZSettings(ep.rs), hdrCap |-> ep.hdrCap]
+          ls |-> ZSettings(ep.ls), rs |-> ZSettings(ep.rs), hdrCap |-> ep.hdrCap,
+          hp |-> <<ep.enc.size, ep.enc.rz, ep.enc.ch, ep.decSize, ep.decMax>>,
+          pend |-> Len(ep.pend)]
 =============================================================================
